@@ -352,7 +352,31 @@ pub fn run_keys(out_path: &str, tier: &str) {
 			};
 			from_oid.push(json!(v));
 		}
-		out.event("AlgTable", "algtable/0", json!({}), "Ok", "", json!({"be": crate::BACKEND, "names": names, "eq": eq, "hash": hash, "fromOid": from_oid, "fromRegisteredOid": from_reg}));
+		// lookups that must find nothing: the empty OID, every proper prefix of a registered OID, every registered OID with one
+		// more arc, a registered OID with its last arc changed; plus the SPKI-side OIDs (rsaEncryption, id-ecPublicKey)
+		let mut strangers: Vec<Vec<u64>> = vec![vec![], vec![1, 2, 840, 113549, 1, 1, 1], vec![1, 2, 840, 10045, 2, 1]];
+		for (n, _) in &algs {
+			let r = registered(n);
+			for l in 1..r.len() {
+				strangers.push(r[..l].to_vec());
+			}
+			let mut e = r.clone();
+			e.push(1);
+			strangers.push(e);
+			let mut c = r.clone();
+			*c.last_mut().unwrap() += 40;
+			strangers.push(c);
+		}
+		let found: Vec<Value> = strangers
+			.iter()
+			.filter_map(|o| match guarded_any(|| SignatureAlgorithm::from_oid(o).map(alg_name)) {
+				Ok(Ok(a)) => Some(json!({"oid": o, "found": a})),
+				Ok(Err(_)) => None,
+				Err(m) => Some(json!({"oid": o, "found": format!("panic: {}", m)})),
+			})
+			.collect();
+		out.event("AlgTable", "algtable/0", json!({}), "Ok", "", json!({"be": crate::BACKEND, "names": names, "eq": eq, "hash": hash, "fromOid": from_oid, "fromRegisteredOid": from_reg,
+			"strangersTried": strangers.len(), "strangersFound": found}));
 	}
 	let _ = (&mut rng, tier);
 	out.finish();
